@@ -766,3 +766,62 @@ def submap(cm, paths):
     for pth in paths:
         out = set_path(out, pth, get_path(cm, pth))
     return out
+
+
+# --------------------------------------------------------------------------- (c) the reference density as a JAX function
+def ref_logp_jax(p, cm, args, kwargs=None):
+    """Joint log density and return value of program p on a (user-level) choice map, written directly in
+    JAX: Python loops over lanes/steps, jnp.where for Cond, TFP log_prob called directly.  Independent of
+    genjax (no handler, combinator, modular_vmap, filter or merge).  Used as the differentiable oracle for
+    MALA/HMC/ADEV/VI references (jax.grad of this function is traced and encoded by symjax)."""
+    from tensorflow_probability.substrates import jax as tfp
+    tfd = tfp.distributions
+    kwargs = kwargs or {}
+    if p.kind == "dist":
+        return jnp.sum(p.family.tfd_ctor(tfd, *args).log_prob(cm)), cm
+    if p.kind == "fn":
+        env = dict(zip(p.params, args))
+        env.update(kwargs)
+        total = 0.0
+        for st in p.body:
+            if isinstance(st, Let):
+                env[st.var] = ev(st.expr, JOps, env)
+            else:
+                a = [ev(e, JOps, env) for e in st.args]
+                kw = {k: ev(e, JOps, env) for k, e in st.kwargs.items()}
+                lp, r = ref_logp_jax(st.callee, cm[st.addr], a, kw)
+                total = total + lp
+                env[st.var] = r
+        return total, ev(p.ret, JOps, env)
+    if p.kind == "vmap":
+        axes = normalize_in_axes(p.in_axes, len(args))
+        n = p.axis_size
+        if n is None:
+            for a, ax in zip(args, axes):
+                if ax is not None:
+                    n = jax.tree_util.tree_leaves(a)[0].shape[ax]
+                    break
+        total, rets = 0.0, []
+        for i in range(n):
+            a_i = [a if ax is None else jax.tree_util.tree_map(lambda l: jnp.take(l, i, axis=ax), a) for a, ax in zip(args, axes)]
+            c_i = jax.tree_util.tree_map(lambda l: l[i], cm)
+            lp, r = ref_logp_jax(p.callee, c_i, a_i, kwargs)
+            total = total + lp
+            rets.append(r)
+        return total, jax.tree_util.tree_map(lambda *xs: jnp.stack(xs), *rets)
+    if p.kind == "scan":
+        carry, xs = args[0], args[1]
+        total, outs = 0.0, []
+        for i in range(p.length):
+            x_i = jax.tree_util.tree_map(lambda l: l[i], xs) if xs is not None else None
+            c_i = jax.tree_util.tree_map(lambda l: l[i], cm)
+            lp, (carry, out) = ref_logp_jax(p.callee, c_i, [carry, x_i], kwargs)
+            total = total + lp
+            outs.append(out)
+        return total, (carry, jax.tree_util.tree_map(lambda *xs_: jnp.stack(xs_), *outs))
+    if p.kind == "cond":
+        check, rest = args[0], list(args[1:])
+        la, ra = ref_logp_jax(p.a, cm, rest, kwargs)
+        lb, rb = ref_logp_jax(p.b, cm, rest, kwargs)
+        return jnp.where(check, la, lb), jax.tree_util.tree_map(lambda x, y: jnp.where(check, x, y), ra, rb)
+    raise ValueError(p.kind)
